@@ -273,15 +273,33 @@ def write_case(case, d):
     return d
 
 
+def merge_order(case):
+    """read_user_stack: the task whose current record has the smallest time, lowest index on ties"""
+    ptr = [0] * len(case["tasks"])
+    order = []
+    while True:
+        best = None
+        for i, t in enumerate(case["tasks"]):
+            if ptr[i] < len(t["recs"]):
+                tm = t["recs"][ptr[i]][3]
+                if best is None or tm < best[0]:
+                    best = (tm, i)
+        if best is None:
+            return order
+        order.append(best[1])
+        ptr[best[1]] += 1
+
+
 def run_harness(exe, d, keysets):
     rc, out, err = sh(["timeout", "30", exe, d] + [",".join(k) for k in keysets], timeout=40)
-    res = {"rows": {}, "nodes": [], "sorts": [], "ok": False, "raw": out[-2000:], "err": err[-500:], "rc": rc}
+    res = {"rows": {}, "grows": [], "nodes": [], "sorts": [], "ok": False, "raw": out[-2000:], "err": err[-500:], "rc": rc}
     for line in out.splitlines():
         p = line.split()
         if not p:
             continue
         if p[0] == "U":
             res["rows"].setdefault(int(p[1]), []).append((p[2], int(p[3]), int(p[4]), p[5] == "1"))
+            res["grows"].append((p[2], int(p[3]), int(p[4]), p[5] == "1"))
         elif p[0] == "N":
             res["nodes"].append((p[1],) + tuple(int(x) for x in p[2:]))
         elif p[0] == "S":
@@ -387,7 +405,20 @@ Definition E := mkrec ENTRY. Definition X := mkrec EXIT. Definition L := mkrec L
 Definition nd nm call ts tr ta tmi tma ss sr sa smi sma :=
   mknode nm call (mkstat ts tr tmi tma ta) (mkstat ss sr smi sma sa).
 Record tcase := mk { tc : case; i_rows : list (list (N * N * N * bool)); i_tbl : list node;
-                     i_sorts : list (list key * list N); i_truth : option (list ttrace) }.
+                     i_sorts : list (list key * list N); i_truth : option (list ttrace);
+                     i_order : list nat; i_grows : list (N * N * N * bool) }.
+(* the merged stream: i_order names the task whose next record is read (min time, lowest index on ties) *)
+Fixpoint weave (order : list nat) (tasks : list (list rec)) : list (nat * rec) :=
+  match order with
+  | [] => []
+  | i :: t => match nth i tasks [] with
+              | [] => weave t tasks
+              | r :: rest => (i, r) :: weave t (firstn i tasks ++ rest :: skipn (S i) tasks)
+              end
+  end.
+Definition merged_ok t := orows_eqb (map (obs_row (c_names (tc t)))
+                                         (merged_rows (c_max (tc t)) (length (c_tasks (tc t))) (weave (i_order t) (c_tasks (tc t)))))
+                                    (i_grows t).
 Definition rows_ok t := forallb (fun p => orows_eqb (map (obs_row (c_names (tc t))) (task_rows (c_max (tc t)) (fst p))) (snd p))
                                 (combine (c_tasks (tc t)) (i_rows t))
                         && Nat.eqb (length (c_tasks (tc t))) (length (i_rows t)).
@@ -430,8 +461,10 @@ def q_tcase(case, res, amap, num):
                             for n, tot, slf, rc in res["rows"].get(t["tid"], [])]))
     sorts = q_list(["(%s, %s)" % (q_list([q_key(k) for k in ks]), q_list([str(num.get(n, 0)) for n in order]))
                     for ks, order in res["sorts"]])
-    return "mk (%s) %s %s %s (%s)" % (q_case(case, amap), q_list(rows), q_list([q_node(n, num) for n in res["nodes"]]),
-                                      sorts, q_truth(case))
+    grows = q_list(["(%d, %d, %d, %s)" % (num.get(n, 0), tot, slf, coq.coq_bool(rc and tot != 0))
+                    for n, tot, slf, rc in res["grows"]])
+    return "mk (%s) %s %s %s (%s) %s %s" % (q_case(case, amap), q_list(rows), q_list([q_node(n, num) for n in res["nodes"]]),
+                                            sorts, q_truth(case), q_list(["%d%%nat" % i for i in merge_order(case)]), grows)
 
 
 # ---------------------------------------------------------------- end-to-end option sets
@@ -601,8 +634,8 @@ def common_meta(ctx):
     ]
     ctx.assume = [
         "no filters/triggers/time range/kernel or event records (those are C07's); default depth 1024 >= max_stack",
-        "symbol lookup and the time-ordered merge of tasks are taken as given (C10, C06): the model processes tasks "
-        "one after the other; theorem C08_table_order_irrelevant shows the table does not depend on the row order",
+        "symbol lookup is taken as given (C10); the order in which read_rstack merges tasks is compared (merged_rows) "
+        "but not derived: theorem C08_merge_irrelevant shows the report is the same for every interleaving",
         "total-stdv/self-stdv (floating point) are not modelled or compared; sort keys *_stdv and `size` are not generated; "
         "--diff is exercised with the default policy/key only; rows of equal |difference| are compared as a set; the "
         "sign of a printed time difference is not judged (inverted without colours: reported)",
@@ -663,6 +696,7 @@ def evaluate(ctx, terms, eterms):
     defs += "Definition ecases : list ecase := [\n%s\n].\n" % ";\n".join(eterms)
     labels = [("gen_truth", "bad_indices truth_ok cases 0"),
               ("m_rows", "bad_indices rows_ok cases 0"),
+              ("m_merged", "bad_indices merged_ok cases 0"),
               ("m_table", "bad_indices table_ok cases 0"),
               ("m_sort", "bad_indices sorts_ok cases 0"),
               ("v_table", "bad_indices prop_table cases 0"),
@@ -690,6 +724,7 @@ WHAT = {
 }
 MODEL = {
     "m_rows": "per-call rows (report_update_node) differ from the model's task_rows",
+    "m_merged": "global order of the counted rows differs from the model's read loop over the merged stream (merged_rows)",
     "m_table": "node table differs from the model's report",
     "m_sort": "row order differs from the model's sort_nodes",
     "m_stdout": "`uftrace report` stdout differs from the model's stdout_model",
